@@ -571,16 +571,10 @@ fn run_sm(ctx: &RunCtx, _tier: Tier) -> RunOut {
             _ => return out.fail("reboot performed before the consumer took WaitingForReboot", ""),
         }
     }
-    // each progress value is acknowledged only after the consumer received it
-    for (k, p) in progress.iter().enumerate() {
-        let acked = log.iter().position(|o| matches!(o, Obs::ProgressAcked(x) if x == p));
-        let recv = log.iter().enumerate().filter(|(_, o)| matches!(o, Obs::Ev(Ev::Progress(x)) if x == p)).map(|(i, _)| i).next();
-        if let (Some(a), Some(r)) = (acked, recv) {
-            if a < r {
-                return out.fail("progress acknowledged to the installer before the consumer received it", format!("value #{k}"));
-            }
-        }
-    }
+    // (not required: a progress value may be acknowledged to the installer before the consumer has
+    // taken it - the installer is not "code after an emission"; the property only orders the values
+    // among themselves and before the outcome. An earlier version of this oracle demanded it and
+    // raised a false alarm on a swapped join order of the forwarder and the installer.)
     out
 }
 
